@@ -98,11 +98,13 @@ CHECKS = {
               "as exact text with the real ones on all depth-2 parent/child/position trees, seeded deep trees and every statement of real kernels; the real output is re-parsed with pycparser / ast and compared structurally and by value."),
         design="DESIGN.md §6 C16"),
     "C17": dict(
-        technique="Lean 4 proof (operator folding sound for all operands in any field; optimiser algebra) + structural correspondence + exact differential execution",
+        technique="Lean 4 proof (operator folding sound for all operands in any field; Lean transcription of optimizer.py with optimize_sound under decidable per-kernel certificates) + structural correspondence + exact differential execution",
         text=("add/radd/sub/rsub/mul/rmul/div/rdiv/neg_sound, float_product_sound, global_index_value are proved for ALL operand trees and values over any lawful field; "
               "the Lean transcription is tied to lnodes.py by exhaustive structural comparison over an operand pool covering every class and literal trigger value. "
-              "Optimiser: prod_perm_sound / licm_factor_sound / execL_append (+ section fusion partial); the state-dependent side conditions are validated per kernel by "
-              "executing optimised and unoptimised ASTs exactly over Rat (per-program, labelled so)."),
+              "Optimiser: optimizer.py (fuse_sections, fuse_loops, check_dependency, licm, optimize) is transcribed in Lean and compared structurally with the real optimize() on every captured part list; "
+              "fuse_sections_sound, loop_fusion_sound, fuse_loops_sound, licm_sound, optimize_sound / optimize_preserves_A are proved for every part list satisfying the decidable certificate optimizeCert, "
+              "which is evaluated on every real kernel (a failing certificate breaks the tie); check_dependency's incompleteness is proved by counterexample and searched for in real kernels; "
+              "optimised and unoptimised ASTs are additionally executed exactly over Rat."),
         design="DESIGN.md §6 C17"),
     "C18": dict(
         technique="Lean 4 proof (declared kernel extents = contract extents for every integral type) + complete numba function table scan + plain-Python execution vs C",
@@ -111,8 +113,9 @@ CHECKS = {
               "The Python-grammar round trip of the numba formatter is C16's subject."),
         design="DESIGN.md §6 C18"),
     "C19": dict(
-        technique="Lean 4 proof (complete rule-id table by decide +kernel; scope-checker invariants; factorisation rejection theorems) + real compilation + malformed stream",
-        text=("rule_ids_distinct is decided over the regenerated table of all rules (cell × degree 0..30 × scheme); the block-scoping checker runs on every kernel AST; every corpus form and seeded multi-rule forms "
+        technique="Lean 4 proof (complete rule-id table by decide +kernel; scope checker sound w.r.t. a scope-aware semantics; flat semantics faithful under a per-kernel certificate; factorisation rejection theorems) + real compilation + malformed stream",
+        text=("rule_ids_distinct is decided over the regenerated table of all rules (cell × degree 0..30 × scheme); the block-scoping checker runs on every kernel AST and is proved sound (scoped_sound, kernel_scoped_sound, scoped_tight, "
+              "kernel_flat_faithful under flatCert, evaluated per kernel); every corpus form and seeded multi-rule forms (incl. different rules of equal size) "
               "are really compiled with -std=c17 -Wall -Werror=implicit-function-declaration; unsupported inputs must raise a Python exception before code is generated."),
         design="DESIGN.md §6 C19"),
     "C20": dict(
